@@ -18,4 +18,17 @@ TABLES = [
     ('markup.snippets.walk_resolve', {'inline': True}),
     ('markup.utils.find_deepest', {'inline': True}),
     ('snippets.parse_snippets', {'inline': True}),
+    ('math_expression.evaluate', {'inline': True}),
+    ('math_expression.parser.order_tokens', {'inline': True}),
+    ('math_expression.parser.parse', {'inline': False}),
+    ('scanner_utils.eat_quoted', {'inline': True}),
+    ('scanner_utils.eat_pair', {'inline': True}),
+    ('css_matcher.scan.literal', {'inline': True}),
+    ('abbreviation.tokenizer.utils.escaped', {'inline': True}),
 ]
+
+SCN_METHODS = ['scanner.Scanner.' + m for m in ('eof', 'peek', 'next', 'eat', 'eat_while', 'back_up', 'current', 'substring', 'error', '__init__')] + \
+    ['token_scanner.TokenScanner.' + m for m in ('peek', 'readable', 'next', 'consume', 'consume_while', 'slice', 'error', '__init__')] + \
+    ['extract_abbreviation.reader.BackwardScanner.' + m for m in ('sol', 'peek', 'previous', 'consume', 'consume_while', '__init__')] + \
+    ['math_expression.extract.BackwardScanner.prev', 'math_expression.extract.BackwardScanner.cur', 'markup.format.template.TokenScanner.peek',
+     'scanner.ScannerException.__init__']
